@@ -38,6 +38,7 @@ fn handle(case: &Value) -> Value {
         "compile_eval" => lang::compile_eval(case),
         "literal_check" => lit::literal_check(case),
         "compile_repeat" => lang::compile_repeat(case),
+        "parse_args" => lang::parse_args(case),
         "frontend" => front::frontend(case),
         "typed_ast" => tast::typed_ast(case),
         "parse_arg" => front::parse_arg(case),
